@@ -41,6 +41,12 @@ TABLES = [
     ('T12b', 'Model.add_association', ('C06', 'C05')),
     ('T21', 'Model.remove_association', ('C05', 'C01')),
     ('T22', 'Model.remove_asset_from_association', ('C05', 'C07', 'C02')),
+    ('T23', 'Model.add_asset', ('C05', 'C06', 'C07')),
+    ('T24', 'Model.add_attacker', ('C05', 'C07')),
+    ('T25', 'Model.remove_asset', ('C05',)),
+    ('T26', 'Model.association_exists_between_assets', ('C05', 'C06')),
+    ('T27', 'Model.get_associated_assets_by_field_name', ('C05', 'C01')),
+    ('T28', 'Model.remove_attacker', ('C05',)),
     ('T13', 'LanguageGraph._get_associations_for_asset_type', ('C15',)),
     ('T20', 'LanguageGraph.get_association_by_fields_and_assets', ('C15', 'C18', 'C19')),
     ('T17', 'AttackerAttachment.get_entry_point_tuple', ('C05', 'C07')),
@@ -137,6 +143,7 @@ def run(ctx) -> list[Inst]:
                               msg=f'{rname} does not implement its specification: {d[:600]}',
                               file=rel, line=f.node.lineno, props=props))
     insts += _no_visited_cut(ctx)
+    insts += _no_self_read_fold(ctx)
     return insts
 
 
@@ -186,4 +193,55 @@ def _no_visited_cut(ctx) -> list[Inst]:
         else:
             insts.append(Inst(RULE, fname, construct, 'ok', file=rel, line=f.node.lineno, props=('C08',),
                               nontrivial=bool(tests)))
+    return insts
+
+
+def _no_self_read_fold(ctx) -> list[Inst]:
+    """T3/T4 side condition - the table language reads `x.f = c ; for p in x.parents: x.f = x.f op p.f` as
+    `x.f = any/all(p.f for p in x.parents)`.  That reading is only right when x is not among its own parents: a
+    step that leads to itself (`| a -> a`) is, and then the loop reads the label it has just reset instead of the
+    label the node carried - the self-supporting labelling, which the greatest fixed point contains, is lost.
+    The accumulation must therefore go through a value that is not the label itself (any()/all(), a local)."""
+    from ..core import own_nodes, stmt_text
+    prog = ctx.prog
+    insts = []
+    for fname in ('propagate_viability_from_node', 'propagate_necessity_from_node'):
+        f = prog.func(fname)
+        rel = f.module.relpath
+        bad = None
+        nloops = 0
+        for n in own_nodes(f.node):
+            if not isinstance(n, ast.For) or not isinstance(n.target, ast.Name):
+                continue
+            it = n.iter
+            if not (isinstance(it, ast.Attribute) and it.attr in ('parents', 'children')):
+                continue
+            owner = stmt_text(it.value)
+            lv = n.target.id
+            for st in ast.walk(n):
+                tg = None
+                if isinstance(st, ast.Assign) and len(st.targets) == 1:
+                    tg, val = st.targets[0], st.value
+                elif isinstance(st, ast.AugAssign):
+                    tg, val = st.target, st.value
+                if not (isinstance(tg, ast.Attribute) and stmt_text(tg.value) == owner):
+                    continue
+                nloops += 1
+                for r in ast.walk(val):
+                    if isinstance(r, ast.Attribute) and r.attr == tg.attr and isinstance(r.value, ast.Name) \
+                            and r.value.id == lv:
+                        bad = (st, tg, r, it)
+        construct = f'{fname}: a label is not accumulated in place while the parents (possibly the node itself) are read'
+        if bad:
+            st, tg, r, it = bad
+            insts.append(Inst(
+                RULE, fname, construct, 'violation',
+                msg=(f"'{stmt_text(st, 90)}' updates {stmt_text(tg)} inside the loop over {stmt_text(it)} that reads "
+                     f"{stmt_text(r)}: for a step that is its own parent (`| a -> a`) the loop reads the label it has "
+                     f"just overwritten, so a self-supporting step is lowered although the labelling that keeps it "
+                     f"satisfies every equation - the result is not the greatest fixed point"),
+                file=rel, line=st.lineno, props=('C08',)))
+        else:
+            insts.append(Inst(RULE, fname, construct, 'ok', file=rel, line=f.node.lineno, props=('C08',),
+                              nontrivial=True))
     return insts
